@@ -46,6 +46,12 @@ func vhExpiring(f map[string]interface{}, enc int, t0 int64) (bool, int64) {
 		ttl := vsymInt64("bigttl", 9000000000, 20000000000)
 		f["ttl"] = float64(ttl)
 		return true, t0 + ttl
+	case 6: // both: a ttl written over a fact that still carries an (older) absolute expires
+		// (the read-modify-write of an item that already has an expiry): the ttl decides
+		ttl := int64(vsymInt("ttl", -5, 1100))
+		f["ttl"] = float64(ttl)
+		f["expires"] = float64(int64(vsymInt("Eold", int(vhT0)-5, int(vhT0)+1100)))
+		return true, t0 + ttl
 	}
 	vassume(false)
 	return false, 0
